@@ -16,6 +16,7 @@ import (
 	"net/http"
 	"net/http/httptest"
 	"os"
+	"strings"
 	"time"
 
 	"verifharness/gw"
@@ -61,22 +62,16 @@ func classifyWrite(b []byte) string {
 				n = n<<8 | int(x)
 			}
 		}
-		switch {
-		case len(b) == h+n:
-			return "frame"
-		case len(b) == h:
-			return "hdr"
+		if len(b) < h+n {
+			return "hdr" // a header, possibly with the first part of its payload
 		}
-		return "partial"
-	case '{':
-		return "payload"
+		return "frame"
 	case 'H':
-		return "http"
+		if strings.HasPrefix(string(b), "HTTP/1.1") {
+			return "http"
+		}
 	}
-	if len(b) >= 2 && (b[0] == 0x03) { // close frame body: status code 1000
-		return "payload"
-	}
-	return "other"
+	return "payload" // the rest of a frame whose header went out in an earlier call
 }
 
 func (c *wconn) Write(b []byte) (int, error) {
@@ -98,14 +93,14 @@ var stepWait = stepTimeout
 type frResult struct {
 	Serialised bool                     `json:"serialised"` // the second writer could not get in between: a lock serialises the writers
 	Trace      []map[string]interface{} `json:"trace"`      // the Write calls on the client connection (for SubscriptionFramesTrace)
-	ID        string         `json:"id"`
-	Mode      string         `json:"mode"`
-	Writes    map[string]int `json:"writes"` // Write calls of the gateway on the client connection, by kind
-	Forced    bool           `json:"forced"` // the interleaving h1 h2 p1 p2 could be forced
-	BadFrames []string       `json:"badFrames,omitempty"`
-	Data      int            `json:"data"`
-	End       string         `json:"end"`
-	Deviation string         `json:"deviation,omitempty"`
+	ID         string                   `json:"id"`
+	Mode       string                   `json:"mode"`
+	Writes     map[string]int           `json:"writes"` // Write calls of the gateway on the client connection, by kind
+	Forced     bool                     `json:"forced"` // the interleaving h1 h2 p1 p2 could be forced
+	BadFrames  []string                 `json:"badFrames,omitempty"`
+	Data       int                      `json:"data"`
+	End        string                   `json:"end"`
+	Deviation  string                   `json:"deviation,omitempty"`
 }
 
 var frGated = map[string]bool{"sub.handler.msg": true, "se.listen.write": true, "conn.write.hdr": true, "conn.write.payload": true,
@@ -120,6 +115,7 @@ func runFrames(e *env, mode string, id string) (res frResult) {
 		return res
 	}
 	hb := mode == "heartbeat"
+	big := mode == "bigevents"
 	s := sched.New(true, func(k string) bool {
 		b := baseKey(k)
 		if b == "sub.heartbeat.tick" {
@@ -197,6 +193,9 @@ func runFrames(e *env, mode string, id string) (res frResult) {
 		}
 	}()
 	items := []string{"Item_1", "Item_2"}
+	if big {
+		items = []string{"Item_big", "Item_big"}
+	}
 	wkey := func(i int) string {
 		if i == 0 {
 			return "se.listen.write"
@@ -342,7 +341,7 @@ func cmdFrames(outPath string, heartbeat bool) {
 		os.Exit(4)
 	}
 	defer out.Close()
-	modes := []string{"listeners"}
+	modes := []string{"listeners", "bigevents"}
 	if heartbeat {
 		modes = append(modes, "heartbeat")
 	}
